@@ -115,7 +115,10 @@ func (k Keeper) ownershipOracleData(ctx sdk.Context, votePeriod uint64) *types.O
 	// We will retrieve all NFTs that need to be verified collected until the last round.
 	// Because list of nfts in the current round can be increased as the round progresses
 	startHeight := types.CalculateRoundStartHeight(ctx.BlockHeight(), votePeriod)
-	nfts := k.SettlementKeeper.GetAllUniqueNftToVerify(ctx, startHeight-1)
+	var nfts []ctypes.Nft
+	if startHeight > 0 {
+		nfts = k.SettlementKeeper.GetAllUniqueNftToVerify(ctx, startHeight-1)
+	}
 	sources := make([]string, len(nfts))
 	for i, nft := range nfts {
 		sources[i] = nft.FormatString()
@@ -129,6 +132,9 @@ func (k Keeper) ownershipOracleData(ctx sdk.Context, votePeriod uint64) *types.O
 
 func (k Keeper) FillSettlementRecipients(ctx sdk.Context, nftOwnership map[ctypes.Nft]ctypes.HexAddressString) {
 	startHeight := types.CalculateRoundStartHeight(ctx.BlockHeight(), k.GetParams(ctx).VotePeriod)
+	if startHeight == 0 {
+		return
+	}
 	k.SettlementKeeper.SetRecipients(ctx, nftOwnership, startHeight-1)
 }
 
